@@ -61,8 +61,12 @@ def runMulti (items : List Sexp) : Option String := do
   let out := " ; ".intercalate outs
   pure s!"model={out}\tspec={out}\ttrig="
 
+/-- `(sharedsub)`: the fixed witness of F-C03-3 — `xf = x.f; q1 = an(entity(x, xf)); q2 = an(entity(x, xf == False))`,
+then `q1` is evaluated. One attribute node with two parents is outside the tree-shaped grammar of the models, so no
+prediction is made (`*`); the specification is `q1`'s isolated result over `f = T, F, F`. -/
 def run (s : Sexp) : String :=
   match s with
+  | .list [.atom "sharedsub"] => "model=*\tspec=[(o0)]\ttrig=F-C03-3"
   | .list (.atom "sched" :: items) => (runSched items).getD "error=bad-case"
   | .list (.atom "multi" :: items) => (runMulti items).getD "error=bad-case"
   | _ => "error=bad-case"
